@@ -64,5 +64,18 @@ def generated(rng):
         s.well = [w for w in s.well if w[0] in ("STRT", "STOP", "STEP")]
         s.curves[0] = (s.curves[0][0], ".1IN", "", s.curves[0][3])
         s.well[1] = ("STOP", "M", "999", "STOP")      # disagrees with the data: refreshed on the first write
+    if rng.random() < 0.35:
+        # units wrapped in 1..3 (mixed) bracket pairs: the reader strips them; nothing may be left to strip on a later cycle
+        def br(u):
+            u = u or "U"
+            for _ in range(rng.randint(1, 3)):
+                u = rng.choice(["(%s)", "[%s]"]) % u
+            return u
+        s.params = [(m, br(u) if rng.random() < 0.6 else u, v, d) for (m, u, v, d) in s.params]
+        s.params.append(("FOO", br("a"), "12", "nested brackets"))
+        if len(s.curves) > 1:
+            m, u, v, d = s.curves[-1]
+            s.curves[-1] = (m, br(u), v, d)
+        s.well.append(("BAR", br("degC"), "3", "bracketed unit in ~Well"))
     s.wrap = "NO"
     return lasgen.render(s)[0]
